@@ -118,6 +118,10 @@ type gen struct {
 	assignErr error
 	frameProps []string
 	opaques map[string]*opaqueDef
+	onStore func(g *gen, ins *ssa.Store, addr Val, v Val) // extra obligations at stores (property-specific sweeps)
+	onAccess func(g *gen, key string, pos token.Pos, what string)
+	pendingKeys map[string]bool // heap keys a spawned, not yet joined goroutine may write
+	deferred []*ssa.Defer
 	sweepFrames string // non-empty: frame sweep of this property; callees are called through their sweep frame contracts
 	ifaceCtrs []*Contract // contracts of interface methods this method implements (behavioural subtyping)
 	loopHavoc bool // the havoc in progress is a loop cut, not a call
